@@ -60,6 +60,29 @@ def showCtor (depth : Option Nat) (buffered : Bool) : String :=
   | none => "refused"
   | some k => s!"built {k} {2 ^ k} {afifoCapacity k buffered}"
 
+/-! ### `UARTBone(phy, clk_freq, cd)` / `UARTWishboneBridge(pads, …, cd)`: who lives in which clock domain
+
+  `cd == "sys"`: PHY and bridge both in sys, no crossing.  Otherwise the PHY is renamed into `cd`
+  (`ClockDomainsRenamer(cd)(phy)`), the bridge (`Stream2Wishbone`) stays in sys, received bytes cross through
+  `rx_cdc = ClockDomainCrossing(cd_from=cd, cd_to="sys")`, bytes to transmit through
+  `tx_cdc = ClockDomainCrossing(cd_from="sys", cd_to=cd)`. -/
+structure BoneDomains where
+  phy    : String
+  bridge : String
+  rx     : Option (String × String)     -- (write domain, read domain) of rx_cdc: PHY → bridge
+  tx     : Option (String × String)     -- (write domain, read domain) of tx_cdc: bridge → PHY
+deriving DecidableEq, Repr
+
+def uartBoneDomains (cd : String) : BoneDomains :=
+  if cd = "sys" then { phy := "sys", bridge := "sys", rx := none, tx := none }
+  else { phy := cd, bridge := "sys", rx := some (cd, "sys"), tx := some ("sys", cd) }
+
+def BoneDomains.show (d : BoneDomains) : String :=
+  let p : Option (String × String) → String
+    | none => "none"
+    | some (a, b) => s!"{a}>{b}"
+  s!"phy={d.phy} bridge={d.bridge} rx={p d.rx} tx={p d.tx}"
+
 def CdcKind.show : CdcKind → String
   | .wire => "wire"
   | .buffer => "buffer"
